@@ -375,7 +375,8 @@ def shrink_run_record(rec):
     for i, op in enumerate(rec['ops']):
         if op.get('op', 'solve') != 'solve':
             continue
-        r = copy.deepcopy(rec); r['ops'][i]['T'] = op['T'] / 2; yield r
+        if op['T'] > 1e-4:
+            r = copy.deepcopy(rec); r['ops'][i]['T'] = op['T'] / 2; yield r
         if op.get('it') != 'euler':
             r = copy.deepcopy(rec); r['ops'][i]['it'] = 'euler'; yield r
         if op.get('maxf', 1.0) != 1.0:
